@@ -3,6 +3,10 @@
 import json, subprocess
 
 CHECKS = {
+ "C05": dict(level="exploration", design="§3 C05",
+   technique="exhaustive enumeration of budget lists x instants x pool sizes against an independent budget oracle (arithmetic) and of pool compositions x budget lists x validation-delay events through the real disruption controller over consecutive rounds (system)",
+   text="Arithmetic: every budget from the alphabet (7 node values x 6 reasons variants incl. the empty list x 8 schedule/duration variants incl. unparsable and duration-only), alone and paired with a second budget, at the six instants around each window edge, for N in 0..6 (quick) / 0..12 (thorough) and the three reasons, through MustGetAllowedDisruptions against an oracle with its own cron matcher. System: every pool composition of 2..4 (quick) / 2..5 (thorough) nodes over 8 node states x 11 budget lists x {no event, a healthy node turning NotReady / being deleted during the 15 s validation delay} through the real disruption controller (all methods) for 2/3 consecutive rounds with commands left in flight; per round and reason, newly selected candidates + nodes not ready or being deleted never exceed the oracle's allowance (flagged only if exceeded under both admissible denominators).",
+   note="Cron subset limited to what the oracle's matcher implements. The arithmetic layer compares for equality (the statement defines the computation: rounding up, [hit, hit+duration), fail-closed)."),
  "C07": dict(level="exploration", design="§3 C07",
    technique="exhaustive enumeration of a blocker matrix (all assignments within a Hamming radius of the all-clear vector) through the real disruption controller, per method and with all methods",
    text="A two-node world in which node A is otherwise disruptable by every method. Nine blocker factors (managed, lifecycle stage, deleting/marked, nomination window open/expired, node annotation, nine pod-protection variants incl. duration-valued / terminal / terminating / PDB / two PDBs, Consolidatable true/false/absent, pool policy incl. static, terminationGracePeriod) x contents {empty, one pod} x drifted: every assignment with <=2 (quick) / <=3 (thorough) factors away from all-clear is run through the real disruption controller once per method and once with all five methods; node A must never be a candidate of a method for which the statement's conjunction (recomputed from the factor values) forbids it. Non-vacuity is measured: every method selects A in the all-clear cases.",
